@@ -68,6 +68,10 @@ static void canon(const an<ConfigItem>& it, std::string& out, bool top) {
         if (!first) out += ",";
         first = false;
         out += hex(i->first) + ":";
+        if (i->first == "__build_info") {  // version and timestamps are not observable
+          out += "{}";
+          continue;
+        }
         canon(i->second, out, false);
       }
       out += "}";
